@@ -70,6 +70,7 @@ def live_spec_devs(check, vh, known, clauses):
     for k, n in enumerate(names):
         if any(f["input"].get("edit") == "(given)" and f.get("dev") in (n, "combined") for f in fails):
             live[n] = known[n]
+            check.known(n, known[n]["text"])
         else:
             common.log("[known] witness of %s no longer fails" % n)
     return live
